@@ -30,7 +30,7 @@ def generate(R, tier):
             labels = [mid(l, R.choice(["", ";", "v", ";OS"])) for l in labels]
             mlabels = [mid(l, R.choice(["", ";x"])) for l in mlabels[:2]] + [R.choice(labels)]
         if R.random() < 0.15:                       # characters that mean something to shell patterns / regular expressions are plain label text
-            x = R.choice(["*", "?", "[L2TP]", "[a-z]", ".*", "(x)", "+", "\\", "^$"])
+            x = R.choice(["*", "?", "[L2TP]", "[a-z]", ".*", "(x)", "+", "\\", "^$", "%", "100% pure", "%s", "%d", "%(x)s", "{}", "{0}", "{x}", "%%"])
             wild = lambda l: l[:-1] + x + l[-1:] if len(l) >= 2 else l
             labels = labels + [wild(labels[0])]
             mlabels = mlabels[:2] + [wild(mlabels[0])] + mlabels[2:]
@@ -43,7 +43,9 @@ def generate(R, tier):
                     lines.append("sys = Linux")
                 for _ in range(R.randint(0, 2)):
                     lines.append("sig = " + D.rand_sig_line(R, kind))
-        queries = set(labels + mlabels) | {"*", "?", labels[0][:-1] + "*", labels[0][:-1] + "?", mlabels[0][:-1] + "[a-z]"}
+        queries = set(labels + mlabels) | {"*", "?", labels[0][:-1] + "*", labels[0][:-1] + "?", mlabels[0][:-1] + "[a-z]",
+                                           # (texts that mean something to %-formatting / str.format: plain text too, also when the label is absent)
+                                           labels[0][:-1] + R.choice(["%", "%s", "100% pure", "%(x)s", "{}", "{0}", "%d"]), "s:unix:Acme OS:100% pure", "%", "{x}"}
         for l in list(queries):
             parts = l.split(":")
             queries.add(":".join(parts[:4]))
